@@ -1901,6 +1901,26 @@ func (x *Exec) specBuiltin(st *State, env *Env, name string, args []Expr) (Value
 			}
 		}
 		fail("len of %s", valueString(v))
+	case "final":
+		// the Go variable's value where the clause is evaluated (a parameter that the body
+		// reassigns is otherwise read as its entry value in postconditions)
+		id, isId := args[0].(*EIdent)
+		if !isId || len(args) != 1 {
+			fail("final() takes the name of a Go variable")
+		}
+		for c := env; c != nil; c = c.parent {
+			if c.frame != nil {
+				if ee, ok := c.frame.env[id.name]; ok {
+					if ee.addr {
+						if p, ok := ee.v.(*Ptr); ok {
+							return x.load(st, p), true
+						}
+					}
+					return ee.v, true
+				}
+			}
+		}
+		fail("final(%s): no such Go variable on this path", id.name)
 	case "old":
 		if env.old == nil || env.oldEnv == nil {
 			fail("old() outside postcondition")
